@@ -55,9 +55,15 @@ func (registry *UtxosRegistry) CalculateFee(transaction *ledger.Transaction, tim
 			return 0, fmt.Errorf("failed to verify input recipient address, input: %v", input)
 		}
 		value := utxo.Value(timestamp, registry.settings.HalfLifeInNanoseconds(), registry.settings.IncomeBase(), registry.settings.IncomeLimit())
+		if inputsValue+value < inputsValue {
+			return 0, fmt.Errorf("inputs value overflow, input: %v", input)
+		}
 		inputsValue += value
 	}
 	for _, output := range transaction.Outputs() {
+		if outputsValue+output.InitialValue() < outputsValue {
+			return 0, errors.New("outputs value overflow")
+		}
 		outputsValue += output.InitialValue()
 	}
 	if inputsValue < outputsValue {
